@@ -20,6 +20,7 @@ func init() {
 			"(rq) the entry returned by the quorum read is an element of a slice whose length was compared with ReadQuorum with truth table {ErrReadQuorum, ok, ok}; " +
 			"(mcq) CheckMemberCountQuorum returns ErrClusterQuorum exactly when MemberCountQuorum > NumMembers; " +
 			"(wiring) every registered handler is wrapped with the precondition, the wrapper invokes the handler only on the precondition's true edge (allowed bypasses: no precondition configured, empty argv, the routing-table push), the precondition is installed before any handler registration, isOperable/preconditionFunc/NewDMap pass the member-count check on their success edges, and the three quorum errors are registered with the protocol error table. " +
+			"(copy-addressed-by-flag) the entry read, the entry delete and the scan choose the backup fragment exactly on the true edge of the request's replica flag and the primary fragment exactly on its false edge (no fallback to the other copy: one physical copy would answer twice and count twice towards ReadQuorum); " +
 			"NOT decided: which backups are reachable at run time, staleness of the member count, behaviour of go-redis and memberlist.",
 		Assume: []string{
 			"(*redis.Client).Process returns the command's error (network and error reply) — go-redis v9.7.3 redis.go",
@@ -35,6 +36,7 @@ func checkC05(r *core.Run) {
 	c05MemberCount(r)
 	c05Wiring(r)
 	c05ErrorRegistry(r)
+	copyAddressedByFlag(r)
 }
 
 const syncPut = "internal/dmap.(*DMap).syncPutOnCluster"
@@ -168,6 +170,14 @@ func c05WriteQuorum(r *core.Run) {
 				case "github.com/redis/go-redis/v9.(*Client).Process", "github.com/redis/go-redis/v9.(baseCmd).Err", "github.com/redis/go-redis/v9.(*baseCmd).Err":
 					guarded = true
 					remote++
+				default:
+					// a same-package helper that sends the entry and hands back both the
+					// transport error and the backup's reply
+					if h := r.P.ByObj[core.CalleeObj(call)]; h != nil && h.SSA != nil && h.Pkg.PkgPath == f.Pkg.Pkg.Path() &&
+						propagatesFailure(r.P, h.SSA, callTo(fnRedisProcess)) && propagatesFailure(r.P, h.SSA, callNamed("Err")) {
+						guarded = true
+						remote++
+					}
 				}
 			}
 		}
@@ -328,14 +338,47 @@ func c05MemberCount(r *core.Run) {
 // underNilErrOf reports whether block b is only reached with a nil error from a call
 // to one of the named functions.
 func underNilErrOf(p *core.Prog, b *ssa.BasicBlock, names ...string) bool {
+	return underNilErrOfDepth(p, b, 0, names...)
+}
+
+// underNilErrOfDepth: block b is reached only when a call of one of the named functions
+// returned a nil error - tested in b's own function or (one level) inside a same-package
+// helper whose nil error dominates b and whose own success-capable returns all lie
+// under the nil error of the named call ("validating helper").
+func underNilErrOfDepth(p *core.Prog, b *ssa.BasicBlock, depth int, names ...string) bool {
 	pred := core.Named(names...)
+	pt := passThrough(p)
 	for _, c := range core.Conditions(b) {
 		v, nonNil, ok := isErrNilTest(c)
 		if !ok || nonNil {
 			continue
 		}
 		for _, call := range errSources(p, v) {
-			if o := core.CalleeObj(call); o != nil && pred(o) {
+			o := core.CalleeObj(call)
+			if o == nil {
+				continue
+			}
+			if pred(o) {
+				return true
+			}
+			if depth > 0 {
+				continue
+			}
+			h := p.ByObj[o]
+			if h == nil || h.SSA == nil || h.SSA == b.Parent() || b.Parent().Pkg == nil || h.Pkg.PkgPath != b.Parent().Pkg.Pkg.Path() || core.ErrIndex(h.SSA) < 0 {
+				continue
+			}
+			all, any := true, false
+			for _, ret := range core.Returns(h.SSA) {
+				if !core.SuccessCapable(ret, pt) {
+					continue
+				}
+				any = true
+				if !underNilErrOfDepth(p, ret.Block(), 1, names...) {
+					all = false
+				}
+			}
+			if any && all {
 				return true
 			}
 		}
@@ -368,7 +411,22 @@ func c05Wiring(r *core.Run) {
 				// the wrapper must pass a Handler literal carrying precond
 				okLit := false
 				if len(cs.Call.Args) == 2 {
-					if cl, ok := core.Unparen(cs.Call.Args[1]).(*ast.CompositeLit); ok {
+					arg := core.Unparen(cs.Call.Args[1])
+					// the literal may be bound to a local first: wrapped := Handler{...}
+					if id, isID := arg.(*ast.Ident); isID && cs.Caller.Decl != nil {
+						obj := cs.Caller.Pkg.TypesInfo.Uses[id]
+						ast.Inspect(cs.Caller.Decl.Body, func(nd ast.Node) bool {
+							as, ok := nd.(*ast.AssignStmt)
+							if !ok || len(as.Lhs) != 1 || len(as.Rhs) != 1 {
+								return true
+							}
+							if l, ok := as.Lhs[0].(*ast.Ident); ok && obj != nil && (cs.Caller.Pkg.TypesInfo.Defs[l] == obj) {
+								arg = core.Unparen(as.Rhs[0])
+							}
+							return true
+						})
+					}
+					if cl, ok := arg.(*ast.CompositeLit); ok {
 						for _, el := range cl.Elts {
 							if kv, ok := el.(*ast.KeyValueExpr); ok {
 								if id, ok := kv.Key.(*ast.Ident); ok && id.Name == "precond" {
@@ -396,6 +454,11 @@ func c05Wiring(r *core.Run) {
 			}
 		}
 	}
+	if hf := r.Need("precondition-wiring", muxHF); hf != nil {
+		cnt := len(p.CallersOf(hf.Obj))
+		r.Check(cnt == 0, "precondition-wiring", "callers of ServeMux.HandleFunc", site(r, hf.SSA.Pos()),
+			"(*ServeMux).HandleFunc has no callers in non-test code", fmt.Sprintf("(*ServeMux).HandleFunc registers handlers without the precondition and has %d callers", cnt))
+	}
 	// direct writes to the handler table
 	for _, fn := range p.FuncList {
 		if core.RelPkg(fn.Pkg.PkgPath) != "internal/server" || fn.SSA == nil {
@@ -405,8 +468,10 @@ func c05Wiring(r *core.Run) {
 			core.Instrs(sf, func(in ssa.Instruction) {
 				if mu, ok := in.(*ssa.MapUpdate); ok {
 					if core.LastField(mu.Map) == "handlers" {
-						r.Check(fn.Name == muxHandle, "precondition-wiring", "write to ServeMux.handlers in "+fn.Name, site(r, instrPos(mu)),
-							"only (*ServeMux).Handle writes the handler table", "the handler table is written outside (*ServeMux).Handle")
+						// Handle and HandleFunc are the mux's two raw registration entry points (who
+						// may call them is judged above and below)
+						r.Check(fn.Name == muxHandle || fn.Name == muxHF, "precondition-wiring", "write to ServeMux.handlers in "+fn.Name, site(r, instrPos(mu)),
+							"only (*ServeMux).Handle / HandleFunc write the handler table", "the handler table is written outside (*ServeMux).Handle and HandleFunc")
 					}
 				}
 			})
